@@ -43,12 +43,19 @@ func init() { register("siodecode", siodecodeMain) }
 // ---------------------------------------------------------------- shapes
 
 // sdShape mirrors Sio/Decoder.v `shape`: K = "o" other | "b" Binary cell (E: placeholder
-// unmarshal failed, else N) | "m" map placeholder entry (N = int(f)) | "s" sequence.
+// unmarshal failed, else N) | "s" sequence (slice elements / struct fields) | "M" map (CI: its
+// element type is an interface type; L: entry values in key order) | "p" a map entry whose value
+// is a placeholder-shaped map (N = int(num); F = shape of that map when walked into).  Whether a
+// "p" entry is replaced by an attachment is decided by the MODEL (from CI of the enclosing "M"),
+// not here.
 type sdShape struct {
-	K string     `json:"k"`
-	N int64      `json:"n,omitempty"`
-	E bool       `json:"e,omitempty"`
-	L []*sdShape `json:"l,omitempty"`
+	K  string     `json:"k"`
+	N  int64      `json:"n,omitempty"`
+	E  bool       `json:"e,omitempty"`
+	NS bool       `json:"ns,omitempty"` // "b": the cell cannot be written (neither it nor its original is settable)
+	CI bool       `json:"ci,omitempty"`
+	F  *sdShape   `json:"f,omitempty"`
+	L  []*sdShape `json:"l,omitempty"`
 }
 
 type sdPlaceholder struct {
@@ -95,7 +102,7 @@ type sdWalker struct {
 	collect *[][]byte
 }
 
-func (w *sdWalker) binCell(rv reflect.Value) *sdShape {
+func (w *sdWalker) binCell(rv, original reflect.Value, customSetter bool) *sdShape {
 	if !sdIsBinaryCell(rv) {
 		return sdOther
 	}
@@ -103,14 +110,16 @@ func (w *sdWalker) binCell(rv reflect.Value) *sdShape {
 		*w.collect = append(*w.collect, append([]byte{}, rv.Bytes()...))
 		return sdOther
 	}
+	ns := !customSetter && !rv.CanSet() && !original.CanSet()
 	var p sdPlaceholder
 	if err := w.js.Unmarshal(rv.Bytes(), &p); err != nil {
-		return &sdShape{K: "b", E: true}
+		return &sdShape{K: "b", E: true, NS: ns}
 	}
-	return &sdShape{K: "b", N: int64(p.Num)}
+	return &sdShape{K: "b", N: int64(p.Num), NS: ns}
 }
 
 func (w *sdWalker) value(rv reflect.Value) *sdShape {
+	original := rv
 	rv, k := sdDeref(rv)
 	switch k {
 	case reflect.Slice:
@@ -122,7 +131,7 @@ func (w *sdWalker) value(rv reflect.Value) *sdShape {
 			}
 			return s
 		case reflect.Uint8:
-			return w.binCell(rv)
+			return w.binCell(rv, original, false)
 		}
 	case reflect.Struct:
 		s := &sdShape{K: "s"}
@@ -144,7 +153,7 @@ func (w *sdWalker) value(rv reflect.Value) *sdShape {
 }
 
 func (w *sdWalker) mapv(rv reflect.Value) *sdShape {
-	s := &sdShape{K: "s"}
+	s := &sdShape{K: "M", CI: rv.Type().Elem().Kind() == reflect.Interface}
 	for _, mk := range sdSortedKeys(rv) {
 		mv := rv.MapIndex(mk)
 		k := mv.Kind()
@@ -154,8 +163,8 @@ func (w *sdWalker) mapv(rv reflect.Value) *sdShape {
 		}
 		switch k {
 		case reflect.Map:
-			if n, ok := sdMapPlaceholder(rv, mv); ok {
-				s.L = append(s.L, &sdShape{K: "m", N: n})
+			if n, ok := sdPlaceholderShaped(mv); ok && w.collect == nil {
+				s.L = append(s.L, &sdShape{K: "p", N: n, F: w.value(mv)})
 				continue
 			}
 			s.L = append(s.L, w.value(mv))
@@ -168,7 +177,7 @@ func (w *sdWalker) mapv(rv reflect.Value) *sdShape {
 					s.L = append(s.L, sdOther)
 					continue
 				}
-				s.L = append(s.L, w.binCell(mv))
+				s.L = append(s.L, w.binCell(mv, mv, true))
 			} else {
 				s.L = append(s.L, sdOther) // other slices inside maps are not walked by reconstructMap
 			}
@@ -179,9 +188,11 @@ func (w *sdWalker) mapv(rv reflect.Value) *sdShape {
 	return s
 }
 
-// sdMapPlaceholder: the test reconstructMap applies to a map value of kind Map.
-func sdMapPlaceholder(rv, mv reflect.Value) (int64, bool) {
-	if rv.Type().Elem().Kind() != reflect.Interface || mv.Len() != 2 || mv.Type().Key().Kind() != reflect.String {
+// sdPlaceholderShaped: is this value of kind Map a map with string keys and exactly the two
+// entries "_placeholder" (a bool, true) and "num" (a float64)?  Says nothing about where the map
+// sits: the container's element type is reported separately (CI) and judged by the model.
+func sdPlaceholderShaped(mv reflect.Value) (int64, bool) {
+	if mv.Len() != 2 || mv.Type().Key().Kind() != reflect.String {
 		return 0, false
 	}
 	ph := mv.MapIndex(reflect.ValueOf("_placeholder").Convert(mv.Type().Key()))
@@ -299,6 +310,7 @@ var sdFamilies = []struct {
 	{"slicebin", []reflect.Type{reflect.TypeOf([]Binary0{})}},
 	{"binmap", []reflect.Type{reflect.TypeOf(&Binary0{}), reflect.TypeOf(map[string]any{})}},
 	{"str", []reflect.Type{reflect.TypeOf("")}},
+	{"nested", []reflect.Type{reflect.TypeOf(map[string]map[string]any{})}},
 }
 
 func sdFamily(name string) []reflect.Type {
@@ -339,10 +351,14 @@ type sdCase struct {
 // sdRun feeds frames to a fresh parser until the first error / panic / finished packet, then
 // decodes the finished packet with the family's types.
 func sdRun(suite string, frames [][]byte, maxAtt int, fam string) sdCase {
+	return sdRunTypes(suite, frames, maxAtt, fam, sdFamily(fam))
+}
+
+// sdRunTypes: the same with explicit handler parameter types ([fam] is only a label).
+func sdRunTypes(suite string, frames [][]byte, maxAtt int, fam string, types []reflect.Type) sdCase {
 	js := &sdRecJSON{inner: stdjson.New()}
 	p := jsonparser.NewCreator(maxAtt, js)()
 	c := sdCase{Suite: suite, MaxAtt: maxAtt, Fam: fam, Frames: [][]int{}, Outs: []string{}, Bins: [][]int{}, Names: []sdNameCall{}}
-	types := sdFamily(fam)
 	c.Nt = len(types)
 
 	var (
@@ -597,6 +613,106 @@ func sdScan(out *vk.Out, maxLen int, workers int) {
 	out.Put(map[string]any{"suite": "scan-summary", "n": total, "finished": finished, "pending": pending, "maxlen": maxLen})
 }
 
+// ---- generated handler parameter types
+//
+// Types built by reflection: leaves {any, Binary, string, int, map[string]any}; constructors
+// map[string]T, []T, struct{F T; G any}, *T; nested to the given depth.  Per type, JSON documents
+// that follow the type's structure with a placeholder-shaped object put at nesting level
+// 0,1,2,... (in range), and out-of-range / negative ones at the upper levels; `any` positions keep
+// nesting objects until the target level is reached, Binary leaves hold an in-range placeholder.
+type sdGenType struct {
+	name string
+	t    reflect.Type
+}
+
+func sdGenTypes(depth int) []sdGenType {
+	anyT := reflect.TypeOf((*any)(nil)).Elem()
+	leaves := []sdGenType{
+		{"any", anyT}, {"Binary", reflect.TypeOf(Binary0{})}, {"string", reflect.TypeOf("")},
+		{"int", reflect.TypeOf(0)}, {"map[string]any", reflect.TypeOf(map[string]any{})},
+	}
+	level := leaves
+	all := append([]sdGenType{}, leaves...)
+	for d := 0; d < depth; d++ {
+		var next []sdGenType
+		for _, e := range level {
+			next = append(next,
+				sdGenType{"map[string]" + e.name, reflect.MapOf(reflect.TypeOf(""), e.t)},
+				sdGenType{"[]" + e.name, reflect.SliceOf(e.t)},
+				sdGenType{"struct{F " + e.name + "; G any}", reflect.StructOf([]reflect.StructField{
+					{Name: "F", Type: e.t}, {Name: "G", Type: anyT}})},
+				sdGenType{"*" + e.name, reflect.PointerTo(e.t)},
+			)
+		}
+		all = append(all, next...)
+		level = next
+	}
+	return all
+}
+
+var sdBinaryType = reflect.TypeOf(Binary0{})
+
+func sdGenJSON(t reflect.Type, d, target int, ph string) string {
+	if d == target {
+		return ph
+	}
+	const okPh = `{"_placeholder":true,"num":0}`
+	switch t.Kind() {
+	case reflect.Interface:
+		if d < target {
+			return `{"a":` + sdGenJSON(t, d+1, target, ph) + `,"z":1}`
+		}
+		return `1`
+	case reflect.Map:
+		return `{"k":` + sdGenJSON(t.Elem(), d+1, target, ph) + `,"j":` + sdGenJSON(t.Elem(), d+1, target, ph) + `}`
+	case reflect.Slice:
+		if t == sdBinaryType {
+			return okPh
+		}
+		return `[` + sdGenJSON(t.Elem(), d+1, target, ph) + `,` + sdGenJSON(t.Elem(), d+1, target, ph) + `]`
+	case reflect.Struct:
+		return `{"F":` + sdGenJSON(t.Field(0).Type, d+1, target, ph) + `,"G":` + sdGenJSON(t.Field(1).Type, d+1, target, ph) + `}`
+	case reflect.Ptr:
+		return sdGenJSON(t.Elem(), d, target, ph)
+	case reflect.String:
+		return `"s"`
+	}
+	return `1`
+}
+
+func sdTypesMode(out *vk.Out, depth int, sample int, seed uint64) {
+	types := sdGenTypes(depth)
+	full := sdGenTypes(depth - 1)
+	pickd := map[int]bool{}
+	if sample > 0 && len(types)-len(full) > sample {
+		r := vk.NewRand(seed)
+		for len(pickd) < sample {
+			pickd[len(full)+r.Intn(len(types)-len(full))] = true
+		}
+	}
+	for i, ty := range types {
+		if i >= len(full) && len(pickd) > 0 && !pickd[i] {
+			continue
+		}
+		seen := map[string]bool{}
+		emit := func(head string, doc string) {
+			if seen[head+doc] {
+				return
+			}
+			seen[head+doc] = true
+			frames := [][]byte{[]byte(head + doc + `]`), []byte("ATT"), []byte("X")}
+			out.Put(sdRunTypes("types", frames, 0, ty.name, []reflect.Type{ty.t}))
+		}
+		for target := 0; target <= depth+2; target++ {
+			emit(`51-["ev",`, sdGenJSON(ty.t, 0, target, `{"_placeholder":true,"num":0}`))
+		}
+		emit(`51-["ev",`, sdGenJSON(ty.t, 0, 1, `{"num":1,"_placeholder":true}`))
+		emit(`51-["ev",`, sdGenJSON(ty.t, 0, 2, `{"_placeholder":true,"num":-1}`))
+		emit(`61-4[`, sdGenJSON(ty.t, 0, 1, `{"_placeholder":true,"num":0}`))
+		emit(`61-4[`, sdGenJSON(ty.t, 0, 2, `{"_placeholder":true,"num":0}`))
+	}
+}
+
 // ---- grammar-aware mutations
 
 type sdGen struct{ r *vk.Rand }
@@ -672,6 +788,8 @@ func (g *sdGen) arg(fam string, natt int) string {
 		return `[` + ph() + `,` + ph() + `]`
 	case "str":
 		return `"s"`
+	case "nested":
+		return `{"k":` + ph() + `,"j":{"x":` + ph() + `}}`
 	}
 	return ph()
 }
@@ -831,6 +949,9 @@ func sdCorpus(out *vk.Out) {
 		B(`2["`), B(`2"`), B(`2[`), B(`2`), B(`2""`), B(`2"\"`), B(`2["a\\"]`), B(`2["a\"]`), B(`2["a","b"]`),
 		B(`2/n,18446744073709551615["e"]`), B(`2/n,18446744073709551616["e"]`), B(`212["e",1,2]`),
 		B(`3`), B(`3[]`), B(`31[1]`), B(`1`), B(`1/n,`), B(`4{"message":"x"}`), B(`4"x"`), B(`0{"sid":"s"}`), B(`0/n,{"sid":"s"}`),
+		B(`51-["e",{"k":{"_placeholder":true,"num":0}}]`, "BUF", "X"),
+		B(`51-["e",{"k":{"_placeholder":true,"num":0},"j":{"a":{"_placeholder":true,"num":0}}}]`, "BUF", "X"),
+		B(`61-3[{"k":{"_placeholder":true,"num":0}}]`, "BUF", "X"),
 		B(`31`), B(`2/n,7`), B(`312`), B(`61-5`, "A"), B(`0/n,5`),
 		B(``), B(`7`), B(`/`), B(`a`), B("\x00"), B("2\xff\"\xfe\""),
 	}
@@ -852,6 +973,7 @@ func siodecodeMain(args []string) error {
 	outp := fs.String("out", "-", "")
 	classes := fs.String("classes", "", "live: comma separated class indexes (default all)")
 	par := fs.Int("par", 1, "live: classes run concurrently")
+	depth := fs.Int("depth", 2, "types: nesting depth of the generated parameter types (deepest level sampled with -n > 0)")
 	fs.Parse(args)
 	out, err := vk.NewOut(*outp)
 	if err != nil {
@@ -863,6 +985,8 @@ func siodecodeMain(args []string) error {
 		sdCorpus(out)
 	case "exhaustive":
 		sdExhaustive(out, *maxLen, *workers)
+	case "types":
+		sdTypesMode(out, *depth, *n, *seed)
 	case "scan":
 		sdScan(out, *maxLen, *workers)
 	case "mutate":
@@ -910,6 +1034,8 @@ var sdLiveClasses = []sdLiveClass{
 	{"placeholder-in-struct", "struct", []string{`51-["struct",{"B":{"_placeholder":true,"num":-2},"M":{"k":{"_placeholder":true,"num":0}}}]`, "b:ABC"}},
 	{"placeholder-in-any", "any", []string{`51-["any",{"a":{"_placeholder":true,"num":-5}}]`, "b:ABC"}},
 	{"mapbin-valid", "mapbin", []string{`51-["mapbin",{"a":{"_placeholder":true,"num":0}}]`, "b:ABC"}},
+	{"nested-typed-map-placeholder", "nested", []string{`51-["nested",{"k":{"_placeholder":true,"num":0}}]`, "b:ABC"}},
+	{"nested-typed-map-out-of-range", "nested", []string{`51-["nested",{"k":{"_placeholder":true,"num":7},"j":{"x":{"_placeholder":true,"num":-2}}}]`, "b:ABC"}},
 	{"truncated-json", "bin", []string{`2["bin",`}},
 	{"truncated-name", "none", []string{`2["no`}},
 	{"text-where-binary-expected", "bin", []string{`51-["bin",{"_placeholder":true,"num":0}]`, `2["none"]`}},
@@ -984,6 +1110,7 @@ func sdNewLiveRig() *sdLiveRig {
 		socket.OnEvent("struct", func(s sdStruct) { in() })
 		socket.OnEvent("mapbin", func(m map[string]sio.Binary) { in() })
 		socket.OnEvent("str", func(s string) { in() })
+		socket.OnEvent("nested", func(m map[string]map[string]any) { in() })
 		socket.OnEvent("echo", func(s string, ack func(string)) { ack(s) })
 		socket.OnError(func(err error) { r.bump(r.errh, sid) })
 	})
